@@ -32,7 +32,7 @@ Proof. exact alias_types. Qed.
    from_bench_string / from_bench_file and the parser classes of parser/abstract.py and parser/bench.py (every
    method these reach: convert_to_circuit, convert, _process_line, _process_input_gate, _process_output_gate,
    _process_operator_gate, _parse_name_gate, _parse_operator_gate, _eof, _add_gate, the dict _processings and the
-   19 `_process_<op>` handlers in it).  Each regenerated function equals the hand model the theorems below are about,
+   18 `_process_<op>` handlers stored under its 20 keys).  Each regenerated function equals the hand model the theorems below are about,
    for ALL arguments (text = 8-bit strings; Python primitives as in Model/PyStr.v); the last clause is the round
    trip stated for the regenerated functions themselves. *)
 Theorem C11_bench_regenerated :
